@@ -360,6 +360,17 @@ func (e *Exec) ndValues() ([]NDValue, error) {
 		if n.Kind == "str" {
 			if s, ok := e.C.strOf[int64(u)]; ok {
 				nv.S = s
+			} else if lv, err := e.S.Values([]*Term{e.C.App("len!", BV(64), n.Term)}); err == nil && len(lv) == 1 {
+				// an arbitrary string: the replay gets one of the model's length (its content is "sym-<code>" padded)
+				if l, err := ParseValue(lv[0], BV(64)); err == nil && l > 0 && l <= 1<<16 {
+					base := fmt.Sprintf("sym-%d", u)
+					for uint64(len(base)) < l {
+						base += "x"
+					}
+					if uint64(len(base)) == l {
+						nv.S = base
+					}
+				}
 			}
 		}
 		out = append(out, nv)
